@@ -7,6 +7,7 @@ import PPV.Gen.KernelRun
 import PPV.Gen.Idx
 import PPV.Model.AssembleRun
 import PPV.Model.OptionsRun
+import PPV.Model.NewtonRun
 
 open PPV
 
@@ -24,6 +25,8 @@ def handle (line : String) : String :=
   | "options" :: numba :: fluid :: _ =>
     let parts := line.trimAscii.toString.splitOn "::"
     PPV.Model.Options.Run.handle numba fluid (parts.getD 1 "") (parts.getD 2 "")
+  | "newton" :: auto :: maxIter :: alpha0 :: _ =>
+    PPV.Model.Newton.Run.handle auto maxIter alpha0 (line.trimAscii.toString.splitOn "::")
   | _ => "bad-op"
 
 partial def loop (h : IO.FS.Stream) (out : IO.FS.Stream) : IO Unit := do
